@@ -221,6 +221,9 @@ def run_enum(case):
     if built is None:
         return 'skip'
     sources, winner = built
+    if len(case) > 5 and case[5]:
+        # the call mapping is a dict subclass / another mapping class
+        sources['mapping_class'] = case[5]
     if value(kind, winner, form) is None:
         return 'skip'
     src = source_text(form)
@@ -563,6 +566,39 @@ def run_late(case):
     return None
 
 
+def run_blockmap(case):
+    """<dtml-with m mapping> / <dtml-in seq mapping> whose mappings are
+    dict subclasses with computed answers: the block binding shadows the
+    outer definition of the name."""
+    from DocumentTemplate import HTML
+    from vf.values import MAPPING_CLASSES
+    _, mc, blk, reader = case
+    cls = MAPPING_CLASSES[mc]
+    body = READERS[reader]
+    if blk == 'with':
+        src = '<dtml-with m mapping>[%s]</dtml-with>(&dtml-nn;)' % body
+        ns = dict(m=cls({'nn': 'INNER'}), nn='OUTER')
+        exp = '[%s](OUTER)' % reader_text(reader, 'INNER')
+    else:
+        src = '<dtml-in seq mapping>[%s]</dtml-in>(&dtml-nn;)' % body
+        ns = dict(seq=[cls({'nn': 'I1'}), cls({'nn': 'I2'})], nn='OUTER')
+        exp = '[%s][%s](OUTER)' % (reader_text(reader, 'I1'),
+                                   reader_text(reader, 'I2'))
+    try:
+        out = HTML(src)(**ns)
+    except Exception as e:
+        out = 'raised %r' % (e,)
+    if out != exp:
+        return ('precedence:block-mapping-class:%s' % blk,
+                '%r with %s mappings rendered %r, expected %r' % (
+                    src, mc, out, exp))
+    return None
+
+
+def reader_text(reader, v):
+    return {'has_key': '1'}.get(reader, v)
+
+
 def run_acquired(case):
     """['acquired', where, reader]: a callable that is an acquisition
     wrapper whose context is a template: looked up by name it is called
@@ -626,6 +662,7 @@ def plan(tier, seed):
     for form in FORMS:
         shards.append(dict(kind='enum', form=form))
     shards.append(dict(kind='underscore'))
+    shards.append(dict(kind='mapclass'))
     shards.append(dict(kind='late'))
     for i in range(4):
         shards.append(dict(kind='names', names=NAMES[1:][i::4]))
@@ -651,6 +688,32 @@ def run_shard(shard):
                     if bad == 'skip':
                         continue
                     acc.case(case, len(subset) >= 2, klass='enum:' + form,
+                             distinct_by_construction=True)
+                    if bad:
+                        acc.fail(bad[0], case, bad[1])
+    elif shard['kind'] == 'mapclass':
+        # the call mapping given as a dict subclass that computes its
+        # answers (__missing__, overridden __getitem__) or as a mapping that
+        # is no dict; block mappings (with / in ... mapping) of these classes
+        for mc in ('missing', 'record', 'plainmapping'):
+            for subset in subsets():
+                if 'mapping' not in subset:
+                    continue
+                for form in ('var', 'entity', 'expr', 'if', 'sub'):
+                    for kind in ('plain', 'rec'):
+                        case = [subset, 'obj', form, kind, 'nn', mc]
+                        bad = run_enum(case)
+                        if bad == 'skip':
+                            continue
+                        acc.case(case, True, klass='mapping-class:' + mc,
+                                 distinct_by_construction=True)
+                        if bad:
+                            acc.fail(bad[0] + ':mapping-class', case, bad[1])
+            for blk in ('with', 'in'):
+                for reader in sorted(READERS):
+                    case = ['blockmap', mc, blk, reader]
+                    bad = run_blockmap(case)
+                    acc.case(case, True, klass='block-mapping-class:' + mc,
                              distinct_by_construction=True)
                     if bad:
                         acc.fail(bad[0], case, bad[1])
